@@ -68,6 +68,9 @@ var badHeads = map[string]bool{"and": true, "or": true, "not": true, "=>": true,
 	"+": true, "-": true, "*": true, "div": true, "mod": true, "/": true, "forall": true, "exists": true, "let": true, "distinct": true, "!": true,
 	"store": true, "to_real": true, "as": true}
 
+// heads that occur on almost every address term: useless (and explosive) as triggers
+var weakHeads = map[string]bool{"obase": true, "ftag": true, "fbase": true, "eidx": true}
+
 func (n *sx) head() string {
 	if len(n.kids) > 0 && n.kids[0].atom != "" {
 		return n.kids[0].atom
@@ -126,7 +129,7 @@ func inferPatterns(body string, names []string) []string {
 		if h == "forall" || h == "exists" {
 			return
 		}
-		if n.clean() && len(n.kids) > 1 {
+		if n.clean() && len(n.kids) > 1 && !weakHeads[h] {
 			vs := map[string]bool{}
 			n.vars(bound, vs)
 			if len(vs) > 0 && !seen[n.src] {
